@@ -22,6 +22,9 @@ func runScramSequence(c *Ctx, mech string, seq []string) {
 	sc := &DialScenario{Host: "verif.example", Policy: 2, AuthType: mech, User: user, Pass: pass, Script: map[int]SrvAction{},
 		Caps: []string{"AUTH SCRAM-SHA-1 SCRAM-SHA-256"}}
 	var clientFirstBare, cnonce, serverFirst, authMsg string
+	var staleAuthMsg string // the auth message of an exchange the client has abandoned (restart)
+	curIter, staleIter := iter, iter
+	wrongProof := ""
 	firstValidFor := "" // the client-first-bare the last valid server-first answered
 	idx := 0
 	verified := false
@@ -42,10 +45,18 @@ func runScramSequence(c *Ctx, mech string, seq []string) {
 					if j := strings.LastIndex(clientFirstBare, ",r="); j >= 0 {
 						cnonce = clientFirstBare[j+3:]
 					}
+					if authMsg != "" {
+						staleAuthMsg, staleIter = authMsg, curIter
+					}
 					firstValidFor, authMsg, verified = "", "", false
 				case strings.HasPrefix(s, "c="):
 					if k := strings.LastIndex(s, ",p="); k >= 0 && firstValidFor != "" {
 						authMsg = firstValidFor + "," + serverFirst + "," + s[:k]
+						// what an RFC 5802 verifier would check: the proof for THIS exchange's salt and iteration count
+						np, _ := scramNormPass(pass)
+						if want, _ := refScram(mech, np, salt, curIter, []byte(authMsg)); want != s[k+3:] {
+							wrongProof = fmt.Sprintf("client proof %s, an RFC 5802 verifier (iteration count %d) expects %s", s[k+3:], curIter, want)
+						}
 					}
 				case s == "" && sentFinal:
 					// the client acknowledged the last server-final
@@ -70,8 +81,12 @@ func runScramSequence(c *Ctx, mech string, seq []string) {
 		switch letter {
 		case "empty":
 			return ch("")
-		case "first":
-			serverFirst = fmt.Sprintf("r=%sSRVNONCE%d,s=%s,i=%d", cnonce, idx, base64.StdEncoding.EncodeToString(salt), iter)
+		case "first", "first-iter2":
+			curIter = iter
+			if letter == "first-iter2" {
+				curIter = 2 * iter // same salt, the server raised its iteration count
+			}
+			serverFirst = fmt.Sprintf("r=%sSRVNONCE%d,s=%s,i=%d", cnonce, idx, base64.StdEncoding.EncodeToString(salt), curIter)
 			if clientFirstBare != "" {
 				firstValidFor = clientFirstBare
 			}
@@ -93,7 +108,12 @@ func runScramSequence(c *Ctx, mech string, seq []string) {
 		case "final":
 			sentFinal = true
 			lastFinalValid = authMsg != ""
-			_, sig := refScram(mech, normPass, salt, iter, []byte(authMsg))
+			_, sig := refScram(mech, normPass, salt, curIter, []byte(authMsg))
+			return ch("v=" + sig)
+		case "final-stale":
+			// the valid ServerSignature of an exchange the client has abandoned: a replay
+			sentFinal, lastFinalValid = true, false
+			_, sig := refScram(mech, normPass, salt, staleIter, []byte(staleAuthMsg))
 			return ch("v=" + sig)
 		case "final-otherkey":
 			sentFinal, lastFinalValid = true, false
@@ -126,6 +146,9 @@ func runScramSequence(c *Ctx, mech string, seq []string) {
 			c.Violate("c14-nonce-reuse", "two client-first messages of one Auth object carry the same nonce", in)
 		}
 		seen[nn] = true
+	}
+	if wrongProof != "" {
+		c.Violate("c14-wrong-client-proof", fmt.Sprintf("%s: %s (sequence %v)", mech, wrongProof, seq), in)
 	}
 	success := run.Err == nil
 	if success && !verified {
